@@ -15,13 +15,18 @@ MCMangledPkgs == {"w_leadnl", "w_lsml", "w_nlonly"}
 
 AllCfgs == CfgClasses
 AllInits == UserKinds \cup {"absent"}
-WE(id, pkgs, cfgs, inits, envs) == [id |-> id, pkgs |-> pkgs, gopkgs |-> pkgs \cap {"root", "sub"}, cfgs |-> cfgs, inits |-> inits, envs |-> envs]
+WA(id, pkgs, cfgs, inits, envs, ancs) == [id |-> id, pkgs |-> pkgs, gopkgs |-> pkgs \cap {"root", "sub"}, cfgs |-> cfgs, inits |-> inits, envs |-> envs, ancs |-> ancs]
+WE(id, pkgs, cfgs, inits, envs) == WA(id, pkgs, cfgs, inits, envs, {"none"})
 W(id, pkgs, cfgs, inits) == WE(id, pkgs, cfgs, inits, {"none"})
 AllEnvs == EnvClasses
 
 \* init executed under MOCKERY_* configuration variables (none / one / several, boolean- and string-valued, the
 \* config-file variable, a key init does not write, an unknown key); load and run in a clean environment
 EnvQ == WE("env", {"sub", "w_colonsp"}, {"default", "rel"}, {"absent"}, AllEnvs)
+\* an ancestor directory of the working directory (one or two levels up; inside the module when the working
+\* directory is sub/, outside it otherwise) already holds a .mockery.yaml / .mockery.yml
+AncQ == WA("anc", {"sub"}, {"default", "cwdsub"}, {"absent"}, {"none"}, AncClasses)
+AncT == WA("anc", {"root", "sub", "w_colonsp"}, {"default", "cwdsub"}, {"absent"}, {"none", "several"}, AncClasses)
 EnvT == WE("env", {"root", "sub", "w_colonsp"}, {"default", "rel", "abs", "cwdsub", "after"}, {"absent", "dangling"}, AllEnvs)
 
 \* main world: every --config class x every initial content, both Go packages and two odd strings
@@ -54,9 +59,9 @@ StrWorlds == {StrWorld("s1", Odd1), StrWorld("s2", Odd2), StrWorld("s3", Odd3), 
               StrWorld("s9", Odd9), StrWorld("s10", Odd10), StrWorld("s11", Odd11), StrWorld("s12", Odd12), StrWorld("s13", Odd13), StrWorld("s14", Odd14)}
 
 OddModsQ == {"m_true", "m_null", "m_int", "m_float", "m_yes", "m_date", "m_punct", "m_hex"}
-MCWorldsQuick == {MainQ, EnvQ} \cup {OddWorld(m) : m \in OddModsQ} \cup StrWorlds
+MCWorldsQuick == {MainQ, EnvQ, AncQ} \cup {OddWorld(m) : m \in OddModsQ} \cup StrWorlds
 \* thorough: the same alphabets in more --config classes and initial contents
 OddWorldT(m) == WE(m, {"root", "sub"}, {"default", "rel", "abs", "cwdsub", "after"}, {"absent", "valid"}, {"none", "several"})
 StrWorldT(w) == W(w.id, w.pkgs, {"default", "rel", "abs", "subdir", "cwdsub", "eqform"}, {"absent", "valid", "empty", "twin", "link"})
-MCWorldsThorough == {Main, EnvT} \cup {OddWorldT(m) : m \in OddMods} \cup {StrWorldT(w) : w \in StrWorlds}
+MCWorldsThorough == {Main, EnvT, AncT} \cup {OddWorldT(m) : m \in OddMods} \cup {StrWorldT(w) : w \in StrWorlds}
 =============================================================================
